@@ -2027,6 +2027,58 @@ def r04_4_no_dynamic_lookup(ctx):
     r.done()
 
 
+def _children_collection(f: Fn, c: ast.Call, node_param: str):
+    """The recursion runs over a collection of children gathered first (`children = list(node.value)` for a sequence, the flattened
+    pairs for a mapping, nothing otherwise): (sequence items covered, keys covered, values covered), or None if `c` is not of
+    that form."""
+    loops = [l for l in enclosing_loops(c, f.node) if isinstance(l, ast.For)]
+    if not loops:
+        return None
+    lo = loops[0]
+    if not (isinstance(lo.iter, ast.Name) and isinstance(lo.target, ast.Name) and whole_collection_loop(lo)
+            and any(isinstance(a, ast.Name) and a.id == lo.target.id for a in c.args)):
+        return None
+    if [b for b in f.cfg.guard_nodes(f.nid(c)) if any(x is lo for x in _ancestors_list(b.ast))]:
+        return None
+    defs = reaching_defs(f, lo.iter, lo.iter.id)
+    if not defs:
+        return None
+    val_txt = '%s.value' % node_param
+    seq = key = val = False
+    for d in defs:
+        if not isinstance(d, ast.Assign):
+            return None
+        v = d.value
+        while isinstance(v, ast.Call) and isinstance(v.func, ast.Name) and v.func.id in ('list', 'tuple', 'iter') and len(v.args) == 1 \
+                and not v.keywords:
+            v = v.args[0]
+        g = f.guards(d)
+        if (isinstance(v, (ast.List, ast.Tuple)) and not v.elts) or (isinstance(v, ast.Call) and isinstance(v.func, ast.Name)
+                                                                      and v.func.id in ('list', 'tuple') and not v.args):
+            continue
+        if norm(v) == val_txt and known_instance(g, node_param, {'SequenceNode'}):
+            seq = True
+            continue
+        if known_instance(g, node_param, {'MappingNode'}):
+            if isinstance(v, (ast.ListComp, ast.GeneratorExp)) and len(v.generators) == 2 and not any(x.ifs for x in v.generators) \
+                    and norm(v.generators[0].iter) == val_txt and isinstance(v.elt, ast.Name) \
+                    and isinstance(v.generators[1].target, ast.Name) and v.generators[1].target.id == v.elt.id:
+                g0, g1 = v.generators
+                if isinstance(g0.target, ast.Name) and norm(g1.iter) == g0.target.id:
+                    key = val = True            # every component of every pair
+                    continue
+                if isinstance(g0.target, ast.Tuple) and len(g0.target.elts) == 2 and isinstance(g1.iter, (ast.Tuple, ast.List)):
+                    names = [norm(x) for x in g1.iter.elts]
+                    key = key or norm(g0.target.elts[0]) in names
+                    val = val or norm(g0.target.elts[1]) in names
+                    continue
+            if isinstance(v, ast.Call) and norm(v.func).endswith('chain.from_iterable') and len(v.args) == 1 and norm(v.args[0]) == val_txt:
+                key = val = True
+                continue
+        return None
+    return seq, key, val
+
+
 def _structural_recursion(r, f: Fn, what: str, node_param: str, self_call_pred, need_tag_store: bool):
     """sequence arm re-applies the function to every element of node.value; mapping arm to both components of every pair"""
     seq_ok = key_ok = val_ok = False
@@ -2039,6 +2091,10 @@ def _structural_recursion(r, f: Fn, what: str, node_param: str, self_call_pred, 
                                                                  for t in ast.walk(it[1])):
                 arg = a.id
         if it is None or arg is None:
+            got = _children_collection(f, c, node_param)
+            if got is not None:
+                seq_ok, key_ok, val_ok = seq_ok or got[0], key_ok or got[1], val_ok or got[2]
+                continue
             r.fail(f.key('recursion-not-over-children:%s' % norm(c)), f.loc(c), '%s: recursive call is not applied to each '
                    'element of a whole iteration over %s.value' % (what, node_param))
             continue
